@@ -37,9 +37,11 @@ ASSUMPTIONS = ["every psutil call is atomic with respect to kernel events; in th
                "CPython semantics of sorted/set/dict/generators/bytes.isdigit/int are modelled, not verified",
                "as_dict() is modelled up to its key set, its NoSuchProcess/ValueError behaviour and the is_running() call made by "
                "ppid(); histories where the iteration order of the name set decides whether that call happened are skipped "
-               "(OutOfModel); attribute universe of the runs: pid,name,ppid,status,num_threads,cpu_times,cpu_num (attrs=[] runs "
-               "with psutil._as_dict_attrnames narrowed to these minus ppid)"]
-EXHAUSTIVE = {"quick": "commit window: thread 0 pre-empted after each of its first 0..34 lines (a warm iteration over 3 PIDs has 28: "
+               "(OutOfModel); attribute universe of the runs: pid,name,ppid,status,num_threads,cpu_times,cpu_num,num_ctx_switches "
+               "(attrs=[] runs with psutil._as_dict_attrnames narrowed to these minus ppid); the only attribute the fake kernel can "
+               "make unimplemented is num_ctx_switches (the theorems quantify over every subset); ad_value is passed but dict values "
+               "are not compared"]
+EXHAUSTIVE = {"quick": "attrs block: 8 argument shapes x 4 attrs contents x 2 kernels (64 histories, cold+warm+None+again); commit window: thread 0 pre-empted after each of its first 0..34 lines (a warm iteration over 3 PIDs has 28: "
                         "prologue, loop, finally) with thread 1 running to completion, and for the last 13 points thread 1 running "
                         "1..6 lines; status faults {ENOENT,ESRCH,EACCES,EPERM,EIO,EIO-read,no Tgid} x {PID,zombie,2 thread ids,absent,0,-1,2^31-1,2^31,"
                         "10^30}; two-thread schedules 0^i 1^j for i,j < 13; pid_exists over {-1,0..9,2^15,2^22,2^31-1,2^31,2^31+1,2^32,2^63-1,2^63,2^64,10^30} x {listed,thread id,absent}",
@@ -47,8 +49,16 @@ EXHAUSTIVE = {"quick": "commit window: thread 0 pre-empted after each of its fir
                           "0/1, close 0, cache_clear, is_running on yield 0/1} after a warm-cache prefix; two-thread schedules 0^i 1^j "
                           "for i,j < 18; pid_exists magnitude sweep"}
 
-NAMES = ["pid", "name", "ppid", "status", "num_threads", "cpu_times", "cpu_num"]
+NAMES = ["pid", "name", "ppid", "status", "num_threads", "cpu_times", "cpu_num", "num_ctx_switches"]
 BAD = {"bogus": 100, "xyz": 101}
+# attrs argument shapes: accepted by as_dict (list, tuple, set, frozenset) and rejected with TypeError
+OK_SHAPES = ["list", "tuple", "set", "frozenset"]
+BAD_SHAPES = ["gen", "iter", "dict", "keys"]
+AD_VALUES = [None, "N/A", 0, -1]
+# the optional kernel record a case may lack: /proc/<pid>/status without the *_ctxt_switches lines
+# (Linux < 2.6.23, gVisor) -> Process.num_ctx_switches() raises NotImplementedError
+OPTIONAL = ["num_ctx_switches"]
+_UNIMPL = set()
 VALID_CODES = list(range(len(NAMES)))
 MAGS = [-1, 0, 1, 2, 3, 4, 5, 6, 7, 8, 9, 2 ** 15, 2 ** 22, 2 ** 31 - 1, 2 ** 31, 2 ** 31 + 1, 2 ** 32, 2 ** 63 - 1, 2 ** 63,
         2 ** 64, 10 ** 30]
@@ -64,16 +74,30 @@ PPID_CODE = NAMES.index("ppid")
 assert PPID_CODE == 2    # coq/C04/Model.v: PPID
 
 
+def _set_case(case):
+    """attribute codes depend on which optional records the case's kernel lacks (coq/C04/Model.v: codes >= 1000)"""
+    global _UNIMPL
+    _UNIMPL = set(case.get("unimpl", []))
+
+
 def code(name):
-    return NAMES.index(name) if name in NAMES else BAD[name]
+    if name in NAMES:
+        return NAMES.index(name) + (1000 if name in _UNIMPL else 0)
+    return BAD[name]
+
+
+def iternew(e):
+    """(attrs names or None, shape, ad_value) of an IterNew event"""
+    return e[1], (e[2] if len(e) > 2 else "list"), (e[3] if len(e) > 3 else None)
 
 
 def valid_codes(case):
     """psutil._as_dict_attrnames as the model sees it; histories using attrs=[] run with that table narrowed to
     NAMES without 'ppid' (so that 'all names' stays cheap on the fake tree and order-independent)"""
+    _set_case(case)
     if case.get("patch_names"):
-        return [c for c in VALID_CODES if c != PPID_CODE]
-    return list(VALID_CODES)
+        return [code(n) for n in NAMES if n != "ppid"]
+    return [code(n) for n in NAMES]
 
 
 # ------------------------------------------------------------------ generation
@@ -113,7 +137,10 @@ def _rand_hist(rng):
         elif k == "PidExistsF":
             e = ["PidExistsF", rng.choice(pids + tids + pids + tids + [0, 9, 2 ** 31 - 1, 2 ** 31, 2 ** 64]), rng.choice(FAULTS)]
         elif k == "IterNew":
-            e = ["IterNew", rng.choice(ATTRS)]
+            a = rng.choice(ATTRS + [["num_ctx_switches"], ["pid", "num_ctx_switches", "name"]])
+            e = ["IterNew", a]
+            if a is not None and rng.random() < 0.5:
+                e += [rng.choice(OK_SHAPES * 3 + BAD_SHAPES), rng.choice(AD_VALUES)]
             ngen += 1
         elif k == "IterNext":
             if ngen == 0:
@@ -258,11 +285,33 @@ def _features(evs):
     return f
 
 
+def _attrs_block():
+    """systematic: every attrs shape x {all attributes (empty), the optional attribute named, ordinary names, None} x
+    {kernel with / without the optional record}, cold cache then warm cache"""
+    out = []
+    ncs = "num_ctx_switches"
+    k = 0
+    for unimpl in ([], [ncs]):
+        for shape in OK_SHAPES + BAD_SHAPES:
+            for attrs in ([], [ncs], ["pid", ncs], ["pid", "name"]):
+                ad = AD_VALUES[k % len(AD_VALUES)]
+                k += 1
+                evs = [["Spawn", 1, 100], ["Spawn", 2, 100], ["Spawn", 3, 100], ["Exit", 3],
+                       ["IterNew", attrs, shape, ad]] + [["IterNext", 0]] * 4 + \
+                      [["IterNew", attrs, shape, ad]] + [["IterNext", 1]] * 4 + \
+                      [["IterNew", None, "list", ad]] + [["IterNext", 2]] * 4 + \
+                      [["IterNew", attrs, shape, ad]] + [["IterNext", 3]] * 4
+                c = _hist_case(evs, "attrs-shapes" + ("-unimpl" if unimpl else ""))
+                c["unimpl"] = unimpl
+                out.append(c)
+    return out
+
+
 def _hist_case(evs, tag=None):
     trivial = not any(e[0] not in KERNEL_EVENTS and e[0] != "IterNew" for e in evs)
     cls = "trivial" if trivial else (tag or "hist" + "".join("-" + x for x in _features(evs)))
     c = {"kind": "hist", "cls": cls, "events": evs}
-    if any(e[0] == "IterNew" and e[1] == [] for e in evs):
+    if any(e[0] == "IterNew" and e[1] == [] and iternew(e)[1] in OK_SHAPES for e in evs):
         c["patch_names"] = True
     return c
 
@@ -278,12 +327,13 @@ KILLS = ["ok", "ok", "ok", "eperm", "esrch", "overflow"]
 
 
 def gen_cases(rng, tier):
-    n_hist = {"quick": 700, "thorough": 5000, "search": 700}[tier]
-    n_txt = {"quick": 150, "thorough": 1500, "search": 100}[tier]
+    n_hist = {"quick": 420, "thorough": 5000, "search": 420}[tier]
+    n_txt = {"quick": 110, "thorough": 1500, "search": 100}[tier]
     cases = []
     for v in range(3):
         cases.append(_hist_case(_sweep(v), "pidexists-sweep"))
     cases.append(_hist_case(_sweep_fault(), "pidexists-status-fault-sweep"))
+    cases.extend(_attrs_block())
     for i in range(n_hist):
         r = rng.random()
         if r < 0.10:
@@ -295,7 +345,10 @@ def gen_cases(rng, tier):
         elif r < 0.32:
             cases.append(_hist_case(_two_gens(rng), None))
         else:
-            cases.append(_hist_case(_rand_hist(rng)))
+            c = _hist_case(_rand_hist(rng))
+            if rng.random() < 0.3:
+                c["unimpl"] = ["num_ctx_switches"]
+            cases.append(c)
     if tier == "thorough":
         prefix = [["Spawn", 1, 100], ["Spawn", 2, 100], ["IterNew", None], ["IterNext", 0], ["IterNext", 0], ["IterNext", 0]]
         alpha = [["Spawn", 1, 100], ["Spawn", 1, 200], ["Reap", 1], ["Reap", 2], ["IterNew", None], ["IterNext", 1], ["IterNext", 2],
@@ -350,9 +403,11 @@ def gen_cases(rng, tier):
 
 
 # ------------------------------------------------------------------ Coq terms
-def _attrs_term(a):
+def _attrs_term(a, shape="list"):
     if a is None:
         return "None"
+    if shape in BAD_SHAPES:
+        return "(Some [(-1)])"        # coq/C04/Model.v BADTYPE: attrs is not a list / tuple / set / frozenset
     return "(Some %s)" % G.lst([G.z(code(x)) for x in a])
 
 
@@ -370,7 +425,8 @@ def _ev_term(e):
     if k in ("Pids", "CacheClear"):
         return "HE %s" % k
     if k == "IterNew":
-        return "HE (IterNew %s)" % _attrs_term(e[1])
+        a, shape, _ = iternew(e)
+        return "HE (IterNew %s)" % _attrs_term(a, shape)
     if k in ("IterNext", "IterClose"):
         return "HE (%s %s)" % (k, G.nat(e[1]))
     if k == "RunY":
@@ -392,6 +448,7 @@ def _names_term(names):
 
 def coq_term(case):
     k = case["kind"]
+    _set_case(case)
     if k == "hist":
         return "run_hist %s %s" % (G.lst([G.z(c) for c in valid_codes(case)]), G.lst([_ev_term(e) for e in case["events"]]))
     if k in ("sched", "sched_commit"):
@@ -465,8 +522,9 @@ def finding_key(case, coq):
 
 
 def spec_keys(case, attrs):
+    """info keys demanded for attrs (a collection of valid, implemented names), all IMPLEMENTED names when it is empty"""
     s = sorted(set(code(a) for a in attrs))
-    return s if s else valid_codes(case)
+    return s if s else [c for c in valid_codes(case) if c < 1000]
 
 
 def _objs(v, acc):
@@ -496,6 +554,7 @@ def oracle(case, coq, impl):
     # entered after it must never yield that object.  (Not evaluated in histories that request 'ppid': there as_dict runs
     # is_running() out of sight.)
     born, said_false, found_at, ytok = {}, set(), {}, []
+    _set_case(case)
     hidden_isrun = any(e[0] == "IterNew" and e[1] is not None and "ppid" in e[1] for e in events)
 
     def note_new(v):
@@ -523,7 +582,7 @@ def oracle(case, coq, impl):
             if tag == "Exc" and ev[1] >= 0 and not (ev[1] == 0 and not tab.procs):
                 return where + "pid_exists raised %r" % (out,)
         elif k == "IterNew":
-            gens.append({"attrs": ev[1], "state": "new", "yields": [], "vanished": set()})
+            gens.append({"attrs": ev[1], "shape": iternew(ev)[1], "state": "new", "yields": [], "vanished": set()})
         elif k == "IterNext" and ev[1] < len(gens):
             g = gens[ev[1]]
             if g["state"] == "new":
@@ -562,9 +621,15 @@ def oracle(case, coq, impl):
                 elif tag == "Exc":
                     name = out["a"][0]["t"]
                     vc = valid_codes(case)
-                    bad = g["attrs"] is not None and any(code(a) not in vc for a in g["attrs"])
-                    if not ((name == "ValueError" and bad) or (name == "IndexError" and g["empty"])):
-                        return where + "process_iter() raised %s" % name
+                    given = g["attrs"] is not None
+                    badtype = given and g["shape"] in BAD_SHAPES
+                    bad = given and not badtype and any(code(a) not in vc for a in g["attrs"])
+                    # documented: a NON-EMPTY attrs naming an attribute the system does not implement raises
+                    explicit = given and not badtype and not bad and any(code(a) >= 1000 for a in g["attrs"])
+                    if not ((name == "TypeError" and badtype) or (name == "ValueError" and bad)
+                            or (name == "NotImplementedError" and explicit) or (name == "IndexError" and g["empty"])):
+                        return where + "process_iter() raised %s (attrs=%r as %s, unimplemented: %r)" % (
+                            name, g["attrs"], g["shape"], sorted(_UNIMPL))
                 else:
                     ys = {p for p, _ in g["yields"]}
                     for p in sorted(g["L"]):
@@ -745,6 +810,38 @@ def _pid_exists_faulted(psutil, root, n, fault):
         psutil._pslinux.open_binary = real
 
 
+def _shape(names, shape):
+    """the attrs argument in the given Python shape"""
+    if shape == "list":
+        return list(names)
+    if shape == "tuple":
+        return tuple(names)
+    if shape == "set":
+        return set(names)
+    if shape == "frozenset":
+        return frozenset(names)
+    if shape == "gen":
+        return (n for n in names)
+    if shape == "iter":
+        return iter(list(names))
+    if shape == "dict":
+        return {n: 1 for n in names}
+    if shape == "keys":
+        return {n: 1 for n in names}.keys()
+    raise ValueError(shape)
+
+
+def _strip_ctxt(fp, pid, strip):
+    """a kernel without the optional *_ctxt_switches records in /proc/<pid>/status"""
+    if not strip:
+        return
+    p = os.path.join(fp.pdir(pid), "status")
+    with open(p, "rb") as f:
+        lines = f.read().splitlines(keepends=True)
+    with open(p, "wb") as f:
+        f.write(b"".join(ln for ln in lines if b"ctxt_switches" not in ln))
+
+
 def _reset(psutil):
     psutil._pmap = {}
     psutil._pids_reused.clear()
@@ -778,6 +875,8 @@ def _run_hist(case, env, psutil):
     res = []
     with _Patches(root, hidden=hidden):
         try:
+            _set_case(case)
+            strip = "num_ctx_switches" in _UNIMPL
             if case.get("patch_names"):
                 psutil._as_dict_attrnames = frozenset(n for n in NAMES if n != "ppid")
             for ev in case["events"]:
@@ -786,8 +885,10 @@ def _run_hist(case, env, psutil):
                     for act in tab.apply(ev):
                         if act[0] == "add":
                             fp.add(act[1], starttime=act[2])
+                            _strip_ctxt(fp, act[1], strip)
                         elif act[0] == "zombie":
                             fp.add(act[1], starttime=act[2], state=b"Z")
+                            _strip_ctxt(fp, act[1], strip)
                         elif act[0] == "remove":
                             fp.remove(act[1])
                         elif act[0] == "addtid":
@@ -813,7 +914,11 @@ def _run_hist(case, env, psutil):
                 elif k == "PidExistsF":
                     out = _pid_exists_faulted(psutil, root, ev[1], ev[2])
                 elif k == "IterNew":
-                    gens.append(psutil.process_iter() if ev[1] is None else psutil.process_iter(attrs=list(ev[1])))
+                    a, shape, ad = iternew(ev)
+                    if a is None:
+                        gens.append(psutil.process_iter() if ad is None else psutil.process_iter(ad_value=ad))
+                    else:
+                        gens.append(psutil.process_iter(attrs=_shape(a, shape), ad_value=ad))
                     out = T("Ret")
                 elif k == "IterNext":
                     if ev[1] >= len(gens):
